@@ -49,7 +49,7 @@ def component(names):
     return NS(text=["t"], text_color=list(names), text_background_color=None)
 
 
-def make_doc(used, where, multi=False, figure=False):
+def make_doc(used, where, multi=False, figure=False, nested=False):
     """document namespace whose colours `used` sit on the component kinds selected by `where` (0 body, 1 title,
     2 page header, 3 footnote, 4 column header)"""
     body_cols = [n for n, w in zip(used, where) if w == 0]
@@ -62,7 +62,7 @@ def make_doc(used, where, multi=False, figure=False):
              rtf_body=None if figure else ([body, body] if multi else body),
              rtf_title=component(on(1)), rtf_subline=None, rtf_footnote=component(on(3)), rtf_source=None,
              rtf_page_header=component(on(2)), rtf_page_footer=None,
-             rtf_column_header=[component(on(4))], rtf_page=NS(page_title="all", page_footnote="last", page_source="last",
+             rtf_column_header=[[component(on(4))], [None]] if nested else [component(on(4))], rtf_page=NS(page_title="all", page_footnote="last", page_source="last",
                                                                 col_width=6.0, border_last="double", border_first="double"),
              rtf_figure=NS(figures=["f"], fig_width=[5.0], fig_height=[5.0], fig_align="center") if figure else None)
     return doc
@@ -110,7 +110,7 @@ class ProbeEnc:
     def encode_source(self, s, page_number=None, page_col_width=None, border_style=None): return [self._probe("SOURCE")]
 
 
-def run_encode(path, used, where, raise_in_body=False, encode=True):
+def run_encode(path, used, where, raise_in_body=False, encode=True, doc=None):
     """run the real encode / _encode_multi_section / _encode_figure_only with probing services.
     returns (log of (site, {name: index}), colour table text, output or exception name)"""
     log = []
@@ -130,7 +130,8 @@ def run_encode(path, used, where, raise_in_body=False, encode=True):
     me._encode_body_section = body_section
     me.figure_service = NS(_get_dimension=lambda d, i: 5.0,
                            _encode_single_figure=lambda data, fmt, w, h, align: enc._probe("FIGURE"))
-    doc = make_doc(used, where, multi=(path == 1), figure=(path == 2))
+    if doc is None:
+        doc = make_doc(used, where, multi=(path == 1), figure=(path == 2))
     if path == 1:
         # _encode_multi_section builds per-section copies through pydantic's model_copy: stand in with namespaces
         doc.model_copy = lambda update=None: NS(**dict(doc.__dict__, **(update or {})))
